@@ -18,9 +18,7 @@ def rename_fields(fields, resources=None, regex=True):
         dp_resources = package.pkg.descriptor.get('resources', [])
         field_res = [
             (re.compile(
-                '^(?:{})\\Z'.format(
-                    src if regex else re.escape(src)
-                )
+                src if regex else re.escape(src)
             ), tgt if regex else tgt.replace('\\', '\\\\')) for src, tgt in fields.items()
         ]
         matched = set()
@@ -35,9 +33,10 @@ def rename_fields(fields, resources=None, regex=True):
                 for sf in schema_fields:
                     sf_name = sf['name']
                     for src, tgt in field_res:
-                        if src.match(sf_name):
+                        whole = src.fullmatch(sf_name)
+                        if whole:
                             matched.add(src.pattern)
-                            target_name = src.sub(tgt, sf_name)
+                            target_name = whole.expand(tgt)
                             assert target_name not in renamed_fields[res_name],\
                                 f'Renaming two fields to the same name "{target_name}"'
                             renamed_fields[res_name].add(target_name)
